@@ -38,7 +38,7 @@ def _run_one(args):
     try:
         chk = run_rules(prop, Source(overrides=ov), 'quick')
         low = chk.check_floors()
-        if low:
+        if low and not chk.refutations():
             raise AnalysisError(f'floors {low}')
         unk = chk.unknowns()
         if unk:
